@@ -41,6 +41,15 @@ theorem skel_runBridgeLifecycle : Skel.runBridgeLifecycle_c09 =
 theorem skel_lookupTunnelRouting : Skel.lookupTunnelRouting = ["ctx.Done", "tunnelRouting.LookupWaitingTunnel", "time.Sleep"] := by
   decide
 
+/-- Forwarding: the address of the source node is asked from the routing table (`getNodeAddr`) on
+every call, between the per-tunnel connection lookup and the dial; nothing else is consulted. -/
+theorem skel_CreateDedicatedConnection : Skel.CreateDedicatedConnection =
+    ["connections.Load", "connections.Delete", "getNodeAddr", "d.DialContext", "connections.Store"] := by decide
+
+theorem skel_forwardToSourceNode : Skel.forwardToSourceNode =
+    ["tunnelConnMgr.CreateDedicatedConnection", "crossNodePool.Get", "WriteFrame", "runCrossNodeDataForwardDedicated"] ∧
+    Skel.processCrossNodeForward = ["handleLocalBridgeWait", "forwardToSourceNode"] := by decide
+
 theorem skel_hybrid : Skel.hybrid_Set = ["getCategory", "setPersistent", "setShared", "setSharedPersistent", "setRuntime"] ∧
     Skel.hybrid_setShared = ["getCacheForKey", "cache.Set"] ∧
     Skel.hybrid_Get = ["getCategory", "getCacheForKey", "cache.Get", "getSharedPersistent", "cache.Get", "persistent.Get"] ∧
@@ -140,6 +149,15 @@ theorem C09_main_from (cfg : Cfg) (w : World) (g : Ghost) (evs : List Ev) (hI : 
     (h : wf cfg evs = true) : holdsFrom cfg g evs (runFrom cfg w evs) = true :=
   holdsFrom_run cfg evs w g hI (fun e he => (List.all_eq_true.mp h) e he)
 
+/-- **Forwarding clause** (also part of `C09_main`, stated on its own): from any state that a history
+can reach, a target connection arriving on any node for tunnel `tid` is forwarded to the address the
+tunnel's source node has registered *last* — however many tunnels this node forwarded to that node
+before, and whatever addresses the node had earlier; with no live non-empty address nothing is
+dialled; an id that does not resolve is not forwarded. -/
+theorem C09_forward_current_address (cfg : Cfg) (w : World) (g : Ghost) (n : Nat) (tid : String)
+    (hI : Inv cfg.backend w g) (hn : wfNode cfg.backend n = true) :
+    check cfg g (.fwd n tid) (forwardTarget cfg w n tid).2 = true := (fwd_ok cfg w g n tid hI.1 hn).1
+
 /-! ## Non-vacuity and excluded points -/
 
 def rA : Rec := ⟨"tunnel-隧道", "m-1", "s3cr3t", "node-0", 12345678, -7, "10.0.0.8", 8080, 0, 0⟩
@@ -164,6 +182,21 @@ example : holds ⟨.memory, [0, 0]⟩ [.reg 0 rA, .rem 1 rA.tunnelID, .look 0 rA
 example : holds ⟨.memory, [0, 0]⟩ [.reg 0 rA, .look 1 rA.tunnelID] [.ok, .notFound] = false := by decide +kernel
 example : holds ⟨.memory, [0, 0]⟩ [.reg 0 rA, .look 1 rA.tunnelID]
     [.ok, .found { rA with sourceNodeID := "node-1", expiresAt := 30000 }] = false := by decide +kernel
+
+def rT1 : Rec := { rA with tunnelID := "T1" }
+def rT2 : Rec := { rA with tunnelID := "T2", mappingID := "m-2" }
+
+/-- The history of the address-change scenario: node 2 forwards a tunnel to node-0 at `@0`; node-0
+re-registers at `@2` and node-1 takes over `@0`; the next tunnel of node-0 must go to `@2`. -/
+example : run ⟨.redis, [0, 0, 0]⟩
+    [.regAddr 0 "node-0" "@0", .reg 0 rT1, .fwd 2 "T1", .regAddr 0 "node-0" "@2", .regAddr 1 "node-1" "@0",
+     .reg 0 rT2, .fwd 2 "T2", .rem 0 "T2", .fwd 2 "T2"] =
+    [.ok, .ok, .forwarded "node-0" "@0", .ok, .ok, .ok, .forwarded "node-0" "@2", .ok, .notFound] := by decide +kernel
+
+/-- … and the predicate rejects forwarding the second tunnel to the address node-0 had before. -/
+example : holds ⟨.redis, [0, 0, 0]⟩
+    [.regAddr 0 "node-0" "@0", .reg 0 rT1, .fwd 2 "T1", .regAddr 0 "node-0" "@2", .reg 0 rT2, .fwd 2 "T2"]
+    [.ok, .ok, .forwarded "node-0" "@0", .ok, .ok, .forwarded "node-0" "@0"] = false := by decide +kernel
 
 /-- Excluded point 1 (why `wfNode`): a tiered store without shared cache keeps the record in the
 registering node's memory, another node does not find it. -/
